@@ -84,6 +84,10 @@ def answer (line : String) : String :=
       let p := posOf s.toList i
       s!"{p.1} {p.2} {utf8Len (s.toList.take i)}"
     | _, _ => "bad-op"
+  | ["render", src, a, b] =>
+    match unhex src, a.toNat?, b.toNat? with
+    | some s, some a, some b => if rendererOk s.toList a b then "ok" else "panic"
+    | _, _, _ => "bad-op"
   | ["abspath", m, f] =>
     match unhex m, unhex f with
     | some m, some f => hex (absoluteSourcePath m f)
